@@ -211,7 +211,8 @@ def c18(tier):
     total = len(fx)
     if tier == "quick":
         rnd = random.Random(common.seed())
-        keep = lambda p: (len(p["body"]) == 2 and p["body"][0]["k"] != "for") or bool(render.calls_in(p["body"]))
+        # always: every pair, everything with calls, and every triple that ends in a test (the consumers of stale flags)
+        keep = lambda p: (len(p["body"]) == 2 and p["body"][0]["k"] != "for") or bool(render.calls_in(p["body"])) or (len(p["body"]) == 3 and p["body"][2]["k"] == "if")
         two = [p for p in fx if keep(p)]
         rest = [p for p in fx if not keep(p)]
         fx = two + rnd.sample(rest, min(len(rest), 1400))
